@@ -43,6 +43,14 @@ MC_INVS = ["StopsExactly", "NeverStuck", "ValidTrajectory", "BeliefTracksState",
 CFG_MC = "INIT Init\nNEXT Next\nCHECK_DEADLOCK FALSE\nINVARIANT Emit\n" + "".join(f"INVARIANT {i}\n" for i in MC_INVS)
 CFG_TRACE = "INIT Init\nNEXT Next\nCHECK_DEADLOCK FALSE\nINVARIANT Emit\nINVARIANT InstancesOK\n"
 
+# One TLC worker.  Measured here: with several workers roughly one run in five of the *same* trace batch ended
+# in an evaluation error raised inside TLC!TLCEval (reached through lazily evaluated LET / LAMBDA values) whose
+# message TLC then formats for tens of minutes (MP.replaceString on a huge value); 20 of 20 single-worker runs of
+# that batch were fine and no slower (the runs are dominated by reading the batch).  A run that still hangs
+# becomes a machinery failure after TLC_TIMEOUT instead of blocking for tlc.py's default hour.
+TLC_WORKERS = 1
+TLC_TIMEOUT = {"quick": 420, "thorough": 1500}
+
 # DESIGN 5.1: direct algebraic results (means of <= a few hundred returns of <= 8 small rewards, one
 # matrix-vector product of <= 9 terms): a few ulp each -> 1e-9 relative leaves 6 orders of magnitude
 TOL = 1e-9
@@ -839,7 +847,8 @@ class Pipeline:
             return
         batch = {"insts": [inst_record(m) for m in self.insts], "cases": [], "traces": self.traces}
         res = run_tlc(ctx.workdir / label, MODULE, CFG_TRACE, files={"batch.json": batch},
-                      env={"BATCH_FILE": "batch.json", "MODE": "trace"}, coverage=(ctx.tier == "thorough"))
+                      env={"BATCH_FILE": "batch.json", "MODE": "trace"}, coverage=(ctx.tier == "thorough"),
+                      workers=TLC_WORKERS, timeout=TLC_TIMEOUT[ctx.tier])
         ctx.add_tlc(res, "trace: recorded roll-outs validated event by event; exact averages / returns computed")
         if res.violated:
             raise TLCFailure(f"design-level invariant violated in {MODULE} (trace mode): {sorted(set(res.violated))}\n"
@@ -1101,7 +1110,8 @@ def mc_cases(rng, tier):
 def run_mc(ctx, insts, cases):
     batch = {"insts": [inst_record(m) for m in insts], "cases": cases, "traces": []}
     res = run_tlc(ctx.workdir / "mc", MODULE, CFG_MC, files={"batch.json": batch},
-                  env={"BATCH_FILE": "batch.json", "MODE": "mc"}, coverage=(ctx.tier == "thorough"))
+                  env={"BATCH_FILE": "batch.json", "MODE": "mc"}, coverage=(ctx.tier == "thorough"),
+                  workers=TLC_WORKERS, timeout=TLC_TIMEOUT[ctx.tier])
     ctx.add_tlc(res, f"mc: every roll-out of {len(cases)} (instance, policy, cap, start) cases over {len(insts)} "
                      f"instances; " + ", ".join(MC_INVS))
     if res.violated:
